@@ -108,6 +108,10 @@ log:
 `
 
 // newEnv builds heimdall (decision mode) from a mechanisms YAML fragment and a rule set, with the chosen cache.
+// envMutate, when set, edits the loaded configuration before the world is built (settings the loader knows but the
+// JSON schema does not).
+var envMutate func(*config.Configuration)
+
 func newEnv(r *simcore.Run, cacheKind string, mechanismsYAML, ruleSetYAML string) (*env, error) {
 	e := &env{r: r, net: simnet.New(), kind: cacheKind, epoch: time.Now()}
 	cfg := baseConfig + mechanismsYAML
@@ -115,6 +119,7 @@ func newEnv(r *simcore.Run, cacheKind string, mechanismsYAML, ruleSetYAML string
 		e.cache = &recordingCache{inner: c}
 		return e.cache
 	}}
+	o.Mutate = envMutate
 	switch cacheKind {
 	case "redis":
 		o.Cache = newRedisStub()
